@@ -193,6 +193,14 @@ def syncer_family(run, prefixes):
         hist = [ev("advance", "", 4), ev("headStart", "", 0), ev("gossip", "valid", tgt), ev("serve", "ok", rnd.randint(1, 3)),
                 ev("headRelease", "forgedNext", 0)] + [ev("serve", "ok", 64) for _ in range(6)]
         frees.append({"k": "SYNC", "n": n_, "hist": hist, "free": True, "from_tlc": False})
+    # (c) a Head() caller learns the adjacent header while the sync loop waits for a range that starts with it: no getter
+    #     fault anywhere, so the target must still be reached (judged with the full C07 clauses, no model prediction)
+    for _ in range(12 if quick else 200):
+        n_ = rnd.randint(6, 12)
+        tgt = rnd.randint(3, n_)
+        hist = [ev("advance", "", 4), ev("headStart", "", 0), ev("gossip", "valid", tgt), ev("headRelease", "adjacent", 0)] + \
+               [ev("serve", "ok", 64) for _ in range(5)]
+        frees.append({"k": "SYNC", "n": n_, "hist": hist, "nodrift": True, "from_tlc": False})
     cases = cases + frees
     for i, c in enumerate(cases):
         c["id"] = i
